@@ -1313,6 +1313,24 @@ class ConfigInformation:
     def mark_output(self, config: "Config"):
         """Sets a dependency on the job"""
         assert not isinstance(config, Task), "Cannot set a dependency on a task"
+
+        producer = config.__xpm__.task
+        if producer is not None and producer is not self.pyobject:
+            # The configuration is the output of another task, and this is
+            # part of what this task (and whatever else holds it) was
+            # identified with: it keeps that mark. The output of this task is
+            # a copy of it, which shares its values
+            output = type(config)()
+            info = output.__xpm__
+            info.values = dict(config.__xpm__.values)
+            info._meta = config.__xpm__._meta
+            info._tags = dict(config.__xpm__._tags)
+            info.pre_tasks = list(config.__xpm__.pre_tasks)
+            info.dependencies = list(config.__xpm__.dependencies)
+            info._sealed = config.__xpm__._sealed
+            info.task = self.pyobject
+            return output
+
         config.__xpm__.task = self.pyobject
         config.__xpm__.task_copied = False
         # The task is part of the identifier: drop what was cached before (for
